@@ -388,7 +388,7 @@ func runC04(r *Run) {
 	c04StructRoot(r)
 	c04NilItems(r)
 	r.Imports = []string{"Base.Val", "Model.Stack", "Model.Loops"}
-	r.Rule("loop nests up to depth 3 over slices and arrays of every element kind ([]any, []int, []string, [2]string, [][]any, []map, []*S1 with nil members, []S1), lengths 0..3, nil, missing and non-sequence collections, " +
+	r.Rule("loop nests up to depth 3 over slices and arrays of every element kind ([]any, []int, []string, [2]string and [3]int including all-zero arrays, [][]any, []map, []*S1 with nil members, []S1), lengths 0..3, nil, missing and non-sequence collections, " +
 		"one- and two-variable forms, loop variables that do and do not shadow outer variables / root struct fields, per-item v-if, <template v-for>, followed or not by v-else (with whitespace or a comment in between); " +
 		"every instance and the sibling after each loop print names through {{ }}, through an expression ({{ n + '' }}) and through a bound attribute; non-trivial: a loop with >= 2 items, shadowing, or a v-else")
 	r.Assume("printed values contain no HTML-special characters and no '|'; maps are not looped over (iteration order unspecified)")
@@ -425,7 +425,7 @@ func runC04(r *Run) {
 			data = Val{K: "struct", T: "S2", M: []KV{
 				{K: "Title", V: VStr("root-title")}, {K: "Inner", V: s1("in", 3, "ip")}, {K: "Ptr", V: Val{K: "ptr", T: "S1"}},
 				{K: "Items", V: VList("int", ints(rr.Intn(4))...)}, {K: "M", V: VMap()}, {K: "Any", V: VStr("any")},
-				{K: "Arr", V: Val{K: "arr", T: "str", L: []Val{VStr("a0"), VStr("a1")}}}, {K: "SM", V: Val{K: "maps"}}, {K: "IM", V: Val{K: "mapi"}},
+				{K: "Arr", V: Val{K: "arr", T: "str", L: []Val{VStr(Pick(rr, []string{"a0", ""})), VStr(Pick(rr, []string{"a1", ""}))}}}, {K: "SM", V: Val{K: "maps"}}, {K: "IM", V: Val{K: "mapi"}},
 				{K: "Ps", V: VList("*S1", Val{K: "ptr", T: "S1", P: &p1}, Val{K: "ptr", T: "S1"}, Val{K: "ptr", T: "S1", P: &p2})},
 				{K: "N8", V: VInt("int8", 2)}, {K: "U16", V: VInt("uint16", 0)}, {K: "F32", V: Val{K: "float32", F: 0.5}}, {K: "Flag", V: VBool(true)}}}
 			scope["title"] = "str"
@@ -451,7 +451,10 @@ func runC04(r *Run) {
 			data = VMap(
 				KV{K: "x", V: VStr("outer-x")}, KV{K: "title", V: VStr("outer-title")}, KV{K: "i", V: VStr("outer-i")},
 				KV{K: "strs", V: VList("", strs(rr.Intn(4))...)}, KV{K: "ss", V: VList("str", strs(rr.Intn(4))...)}, KV{K: "ns", V: VList("int", ints(rr.Intn(4))...)},
-				KV{K: "arr", V: Val{K: "arr", T: "str", L: []Val{VStr("a0"), VStr("a1")}}},
+				// arrays whose elements may all be zero values (an array of n zeros still has n items)
+				KV{K: "arr", V: Val{K: "arr", T: "str", L: []Val{VStr(Pick(rr, []string{"a0", ""})), VStr(Pick(rr, []string{"a1", ""}))}}},
+				KV{K: "iarr", V: Val{K: "arr", T: "int", L: ints(3)}},
+				KV{K: "zeros", V: VList("int", VInt("int", 0), VInt("int", 0))},
 				KV{K: "rows", V: VList("", rows...)}, KV{K: "people", V: VList("map", people...)},
 				KV{K: "ptrs", V: VList("*S1", Val{K: "ptr", T: "S1", P: &q1}, Val{K: "ptr", T: "S1"}, Val{K: "ptr", T: "S1", P: &q2})},
 				KV{K: "structs", V: VList("S1", q1, q2)},
@@ -459,7 +462,7 @@ func runC04(r *Run) {
 			)
 			scope["x"], scope["title"], scope["i"] = "str", "str", "str"
 			scope["e"] = "undef"
-			for k, v := range map[string]string{"strs": "strs", "ss": "strs", "ns": "ints", "arr": "arr", "rows": "rows", "people": "people", "ptrs": "ptrs", "structs": "structs",
+			for k, v := range map[string]string{"strs": "strs", "ss": "strs", "ns": "ints", "arr": "arr", "iarr": "ints", "zeros": "ints", "rows": "rows", "people": "people", "ptrs": "ptrs", "structs": "structs",
 				"empty": "empty", "nilslice": "nilslice", "missing": "missing", "scalar": "scalar"} {
 				colls[k] = v
 			}
